@@ -462,11 +462,17 @@ def _py_only(verdict):
 
 
 def _no_type_specifier(t):
+    """some declaration-specifier list (of the type itself or of a parameter) holds no type specifier: implicit int"""
     toks = t.split()
-    i = 0
-    while i < len(toks) and toks[i] in SPEC | QUAL:
-        i += 1
-    return not any(x in SPEC for x in toks[:i])
+    starts = [0] + [i + 1 for i, x in enumerate(toks) if x in ('(', ',')]
+    for k, st in enumerate(starts):
+        i = st
+        while i < len(toks) and toks[i] in SPEC | QUAL:
+            i += 1
+        run = toks[st:i]
+        if not any(x in SPEC for x in run) and (k == 0 or run):
+            return True
+    return False
 
 
 def _odd_array_bound(t):
